@@ -1,4 +1,5 @@
 import BqVerif.Model.QasmPrint
+import BqVerif.Model.QasmSpec
 import BqVerif.Drivers.Util
 /-! Driver for the `qasm` machine (C17).  Stateful: `def …` lines load the live gate table,
 then one request per line.  Text arguments are escaped (`\n`, `\t`, `\\`).  Floats are printed
@@ -104,6 +105,10 @@ def step (s : DSt) (line : String) : DSt × String :=
      | _ => (s, "bad-op"))
   | "decode" =>
     (s, match decode floatArith s.table arg with
+        | some d => showDecoded d
+        | none => "err")
+  | "spec" =>       -- the reference elaboration (what the program means)
+    (s, match specDecode floatArith s.table arg with
         | some d => showDecoded d
         | none => "err")
   | "stage" =>      -- which stage rejects (diagnostics only)
